@@ -8,6 +8,7 @@ import (
 	"strings"
 
 	"golang.org/x/tools/go/ssa"
+	"sort"
 )
 
 func init() { register("C14", checkC14) }
@@ -390,35 +391,81 @@ func checkDirectiveMachine(c *Ctx, u *Universe) {
 		return
 	}
 	chObj := identObj(info, rs.Value)
-	stateObj := findLocal(info, fd, "state")
-	precObj := findLocal(info, fd, "numFixedPrecision")
-	flagNames := []string{"flagPositive", "flagFixed", "flagScientific", "flagPercent"}
-	flagObjs := map[string]types.Object{}
-	for _, n := range flagNames {
-		flagObjs[n] = findLocal(info, fd, n)
+	// the machine's variables are whatever the statements before the loop initialise to constants (no names
+	// assumed); variables the loop body assigns from non-constant expressions are accumulators
+	var before, after []ast.Stmt
+	for i, st := range fd.Body.List {
+		if st == loop {
+			before, after = fd.Body.List[:i], fd.Body.List[i+1:]
+		}
 	}
-	consts := localIntConsts(info, fd)
-	begin, okb := consts["sBegin"]
-	if chObj == nil || stateObj == nil || precObj == nil || !okb {
+	pe0 := newPE(u, info, fd)
+	outs0 := pe0.exec(newState(), before)
+	if chObj == nil || pe0.failed != "" || len(outs0) != 1 || outs0[0].Kind != "next" {
+		R.undecided("C14.directive", "pkg/exec.parseNumberFormatter", pos, "statements before the directive loop are not a plain initialisation: "+pe0.failed)
+		return
+	}
+	var vars []types.Object
+	for o, v := range outs0[0].St.env {
+		if v.K == vInt || v.K == vBool {
+			vars = append(vars, o)
+		}
+	}
+	sort.Slice(vars, func(i, j int) bool { return vars[i].Pos() < vars[j].Pos() })
+	accum := map[types.Object]bool{}
+	ast.Inspect(body, func(n ast.Node) bool {
+		if as, ok := n.(*ast.AssignStmt); ok && len(as.Lhs) == len(as.Rhs) {
+			for i, l := range as.Lhs {
+				if o := identObj(info, l); o != nil {
+					if _, isConst := pe0.constOf(as.Rhs[i]); !isConst || as.Tok != token.ASSIGN {
+						accum[o] = true
+					}
+				}
+			}
+		}
+		if id, ok := n.(*ast.IncDecStmt); ok {
+			if o := identObj(info, id.X); o != nil {
+				accum[o] = true
+			}
+		}
+		return true
+	})
+	var accVars []types.Object
+	for _, o := range vars {
+		if accum[o] {
+			accVars = append(accVars, o)
+		}
+	}
+	if len(vars) < 2 {
 		R.undecided("C14.directive", "pkg/exec.parseNumberFormatter", pos, "machine variables not found")
 		return
 	}
-	type cfg struct {
-		state      int64
-		pos, fix   bool
-		sci, pct   bool
-		prec       int64
+	type cfg string // canonical rendering of the machine variables
+	envOf := func(cf map[types.Object]Val) cfg {
+		var sb strings.Builder
+		for _, o := range vars {
+			fmt.Fprintf(&sb, "%s;", cf[o].String())
+		}
+		return cfg(sb.String())
 	}
-	step := func(cf cfg, ch rune) (cfg, string) {
+	snapshot := func(st *peState) (map[types.Object]Val, bool) {
+		m := map[types.Object]Val{}
+		for _, o := range vars {
+			v := st.env[o]
+			if v.K != vInt && v.K != vBool {
+				return nil, false
+			}
+			m[o] = v
+		}
+		return m, true
+	}
+	step := func(cf map[types.Object]Val, ch rune) (map[types.Object]Val, string) {
 		pe := newPE(u, info, fd)
 		st := newState()
-		st.env[stateObj] = intVal(cf.state)
+		for o, v := range cf {
+			st.env[o] = v
+		}
 		st.env[chObj] = intVal(int64(ch))
-		st.env[precObj] = intVal(cf.prec)
-		st.env[flagObjs["flagPositive"]] = boolVal(cf.pos)
-		st.env[flagObjs["flagFixed"]] = boolVal(cf.fix)
-		st.env[flagObjs["flagScientific"]] = boolVal(cf.sci)
-		st.env[flagObjs["flagPercent"]] = boolVal(cf.pct)
 		outs := pe.exec(st, body.List)
 		if pe.failed != "" || len(outs) != 1 {
 			return cf, "?" + pe.failed
@@ -430,13 +477,13 @@ func checkDirectiveMachine(c *Ctx, u *Universe) {
 			}
 			return cf, "?returns a value inside the loop"
 		}
-		g := func(n string) bool { return o.St.env[flagObjs[n]].B }
-		n := cfg{o.St.env[stateObj].I, g("flagPositive"), g("flagFixed"), g("flagScientific"), g("flagPercent"), o.St.env[precObj].I}
-		if o.St.env[stateObj].K != vInt || o.St.env[precObj].K != vInt {
+		n, ok := snapshot(o.St)
+		if !ok {
 			return cf, "?state not constant"
 		}
 		return n, "ok"
 	}
+	initial, _ := snapshot(outs0[0].St)
 	// language equivalence with [+]?(\.D*)?[E%]? on all strings
 	alphabet := []rune{'p', '.', 'E', '%', 'D', 'x'}
 	ref := compileRegex(`p?(\.D*)?(E|%)?`, nil, alphabet)
@@ -446,7 +493,8 @@ func checkDirectiveMachine(c *Ctx, u *Universe) {
 		dead bool
 		r    int
 	}
-	start := prod{cfg{state: begin}, false, 0}
+	envs := map[cfg]map[types.Object]Val{envOf(initial): initial}
+	start := prod{envOf(initial), false, 0}
 	seen := map[prod]bool{start: true}
 	type item struct {
 		p prod
@@ -459,6 +507,10 @@ func checkDirectiveMachine(c *Ctx, u *Universe) {
 		it := queue[0]
 		queue = queue[1:]
 		nStates++
+		if nStates > 20000 {
+			R.undecided("C14.directive", "pkg/exec.parseNumberFormatter", pos, "state space of the directive machine does not close")
+			return
+		}
 		implAcc := !it.p.dead
 		if implAcc != ref.accepts(it.p.r) {
 			mismatch = fmt.Sprintf("directive %q: machine accepts=%v, documented form accepts=%v", "#"+it.w, implAcc, ref.accepts(it.p.r))
@@ -468,11 +520,15 @@ func checkDirectiveMachine(c *Ctx, u *Universe) {
 			for _, ch := range concrete[sym] {
 				n := prod{it.p.c, it.p.dead, ref.step(it.p.r, sym)}
 				if !it.p.dead {
-					nc, res := step(it.p.c, ch)
+					nc, res := step(envs[it.p.c], ch)
 					switch {
 					case res == "ok":
-						nc.prec = 0 // the precision value does not influence acceptance below the bound (C14.bound)
-						n.c = nc
+						// accumulator values do not influence acceptance below the bound (C14.bound)
+						for _, o := range accVars {
+							nc[o] = intVal(0)
+						}
+						n.c = envOf(nc)
+						envs[n.c] = nc
 					case res == "error":
 						n.dead = true
 					default:
@@ -490,16 +546,11 @@ func checkDirectiveMachine(c *Ctx, u *Universe) {
 	R.check(mismatch == "", "C14.directive", "pkg/exec.parseNumberFormatter:language", pos,
 		fmt.Sprintf("accepted directives = [+]?(.D*)?[E%%]? on all strings (%d product states explored)", nStates), mismatch)
 
-	// verbs of the documented forms
-	var after []ast.Stmt
-	for i, s := range fd.Body.List {
-		if s == loop {
-			after = fd.Body.List[i+1:]
-		}
-	}
-	fmtStrObj := findLocal(info, fd, "fmtStr")
+	// verbs of the documented forms: run the machine on the directive, then the statements after the loop;
+	// the rendering call fmt.Sprintf(verb, number) is observed wherever the verb was assembled
+	const marker = "\x00RENDER\x00"
 	run := func(directive string) (verb string, times100 bool, pctSuffix bool, ok bool) {
-		cf := cfg{state: begin}
+		cf := initial
 		for _, ch := range directive {
 			n, res := step(cf, ch)
 			if res != "ok" {
@@ -514,40 +565,38 @@ func checkDirectiveMachine(c *Ctx, u *Universe) {
 				if f.K == vStr && a.K == vInt && f.S == ".%d" {
 					return Val{K: vStr, S: fmt.Sprintf(".%d", a.I)}, true
 				}
+				if f.K == vStr && strings.HasPrefix(f.S, "%") && a.K != vInt {
+					verb = f.S
+					times100 = false
+					if be, ok := ast.Unparen(call.Args[1]).(*ast.BinaryExpr); ok && be.Op == token.MUL {
+						if k, ok := pe.constOf(be.Y); ok && k.K == vInt && k.I == 100 {
+							times100 = true
+						}
+						if k, ok := pe.constOf(be.X); ok && k.K == vInt && k.I == 100 {
+							times100 = true
+						}
+					}
+					return Val{K: vStr, S: marker}, true
+				}
 			}
 			return Val{}, false
 		}
 		st := newState()
-		st.env[precObj] = intVal(cf.prec)
-		st.env[flagObjs["flagPositive"]] = boolVal(cf.pos)
-		st.env[flagObjs["flagFixed"]] = boolVal(cf.fix)
-		st.env[flagObjs["flagScientific"]] = boolVal(cf.sci)
-		st.env[flagObjs["flagPercent"]] = boolVal(cf.pct)
+		for o, v := range cf {
+			st.env[o] = v
+		}
 		outs := pe.exec(st, after)
-		if pe.failed != "" || len(outs) != 1 || outs[0].Kind != "return" || fmtStrObj == nil {
+		if pe.failed != "" || len(outs) != 1 || outs[0].Kind != "return" || len(outs[0].RetV) == 0 {
 			return "", false, false, false
 		}
-		o := outs[0]
-		v := o.St.env[fmtStrObj]
-		if v.K != vStr {
+		switch rv := outs[0].RetV[0]; {
+		case rv.K == vStr && rv.S == marker:
+		case rv.K == vStr && rv.S == marker+"%":
+			pctSuffix = true
+		default:
 			return "", false, false, false
 		}
-		// shape of the returned expression
-		ret := ast.Unparen(o.Ret[0])
-		if be, ok := ret.(*ast.BinaryExpr); ok && be.Op == token.ADD {
-			if s, ok := pe.constOf(be.Y); ok && s.K == vStr && s.S == "%" {
-				pctSuffix = true
-			}
-			ret = ast.Unparen(be.X)
-		}
-		if call, ok := ret.(*ast.CallExpr); ok && len(call.Args) == 2 {
-			if be, ok := ast.Unparen(call.Args[1]).(*ast.BinaryExpr); ok && be.Op == token.MUL {
-				if k, ok := pe.constOf(be.Y); ok && k.K == vInt && k.I == 100 {
-					times100 = true
-				}
-			}
-		}
-		return v.S, times100, pctSuffix, true
+		return verb, times100, pctSuffix, verb != ""
 	}
 	forms := []struct {
 		d, verb string
@@ -562,17 +611,24 @@ func checkDirectiveMachine(c *Ctx, u *Universe) {
 	R.min("C14.directive", 8)
 
 	// C14.bound: inside the digit loop an accumulator above the bound is rejected
-	var fixedState int64 = -1
-	if n, res := step(cfg{state: begin}, '.'); res == "ok" {
-		fixedState = n.state
-	}
 	okSmall, okBig := false, true
-	if fixedState >= 0 {
-		if n, res := step(cfg{state: fixedState, fix: true, prec: 3}, '7'); res == "ok" && n.prec == 37 {
+	fixedState := int64(-1)
+	if afterDot, res := step(initial, '.'); res == "ok" && len(accVars) == 1 {
+		fixedState = 1
+		acc := accVars[0]
+		with := func(v int64) map[types.Object]Val {
+			m := map[types.Object]Val{}
+			for o, x := range afterDot {
+				m[o] = x
+			}
+			m[acc] = intVal(v)
+			return m
+		}
+		if n, res := step(with(3), '7'); res == "ok" && n[acc].I == 37 {
 			okSmall = true
 		}
 		for _, big := range []int64{10_000_000, 1_000_000_000_000, 100_000_000_000_000_000} {
-			if _, res := step(cfg{state: fixedState, fix: true, prec: big}, '9'); res != "error" {
+			if _, res := step(with(big), '9'); res != "error" {
 				okBig = false
 			}
 		}
